@@ -45,13 +45,5 @@ VF_X char* x_mmap(char* addr, uint64_t len, uint32_t prot, uint32_t flags, uint3
 #define VF_HAVE_x_munmap
 VF_X uint32_t x_munmap(char* p, uint64_t len) { free(p); return 0; }
 /* <iostream> static initialiser object: no observable effect */
-#define VF_HAVE_x__ZNSt8ios_base4InitC1Ev
-VF_X void x__ZNSt8ios_base4InitC1Ev(char* self) { }
-#define VF_HAVE_x__ZNSt8ios_base4InitD1Ev
-VF_X void x__ZNSt8ios_base4InitD1Ev(char* self) { }
 /* std::condition_variable of the (never used) thread-pool mailbox ThreadPool::my_box */
-#define VF_HAVE_x__ZNSt18condition_variableC1Ev
-VF_X void x__ZNSt18condition_variableC1Ev(char* self) { }
-#define VF_HAVE_x__ZNSt18condition_variableD1Ev
-VF_X void x__ZNSt18condition_variableD1Ev(char* self) { }
 #endif
